@@ -417,25 +417,20 @@ theorem eqVals_map_missing_key (dev : Dev) (h : Heap) (n : Nat) (seen : List (Na
     (hk : (k, v) ∈ h.mapAt a) (hno : kvGet k (h.mapAt b) = none) (hlen : (h.mapAt a).length = (h.mapAt b).length)
     (hseen : seen.contains (a, b) = false) :
     eqVals dev h (n + 1) seen (.mref a) (.mref b) = .no ∨ eqVals dev h (n + 1) seen (.mref a) (.mref b) = .amb := by
-  simp only [eqVals, hlen, hseen, ne_eq, not_true_eq_false, if_false, Bool.false_eq_true]
-  have hmem : EqRes.no ∈ (h.mapAt a).map (fun kv =>
-      match kvGet kv.1 (h.mapAt b) with
-      | some w => eqVals dev h n ((a, b) :: seen) kv.2 w
-      | none => EqRes.no) := by
+  unfold eqVals
+  simp only [hlen, hseen, ne_eq, not_true_eq_false, if_false, Bool.false_eq_true]
+  generalize hrs : List.map _ (h.mapAt a) = rs
+  have hmem : EqRes.no ∈ rs := by
+    rw [← hrs]
     refine List.mem_map.mpr ⟨(k, v), hk, ?_⟩
     simp [hno]
-  have hc : ((h.mapAt a).map (fun kv =>
-      match kvGet kv.1 (h.mapAt b) with
-      | some w => eqVals dev h n ((a, b) :: seen) kv.2 w
-      | none => EqRes.no)).contains EqRes.no = true := by
-    simpa using hmem
   unfold eqCombine
-  simp only [hc, if_true]
-  split
-  · exact Or.inr rfl
-  · split
-    · exact Or.inr rfl
-    · exact Or.inl rfl
+  simp only [List.contains_iff_mem]
+  by_cases h1 : EqRes.amb ∈ rs
+  · right; simp [h1]
+  · by_cases h2 : EqRes.cyc ∈ rs
+    · right; simp [h1, hmem, h2]
+    · left; simp [h1, hmem, h2]
 
 /-- `{a: 1, b: null}` and `{a: 1, c: 2}` (same size, one key renamed, the extra key of the first holding
 null) are different in both argument orders, and a map equals a reordered copy of itself -/
